@@ -42,6 +42,25 @@ Proof.
 Qed.
 Print Assumptions C13_battery_in_range.
 
+(* for EVERY registry the gateway can reach from received messages and send calls
+   (any history, any oracle, any fault stream) the round trip holds.  The invariant
+   carries: nodes registered under their own id (0..255, unique), battery level
+   0..100, unique child / value keys.  The one premise left is that child ids and
+   value types print within CPython's 4300-digit int/str limit (int() on the wire
+   enforces the same limit; not proved here). *)
+Theorem C13_reachable :
+  forall bat vlt now metric ops,
+    Forall op_ok ops ->
+    let reg := w_nodes (run_ops bat vlt now (init_world metric) ops) in
+    printable_reg reg ->
+    load_registry (dump_registry reg) [] = Some (map (fun kn => (fst kn, clear_reboot (snd kn))) reg).
+Proof.
+  intros bat vlt now metric ops H reg Hp. apply load_dump_registry.
+  destruct (run_ops_inv bat vlt now ops _ (Inv_init vlt metric) H) as [Hi _].
+  exact (reachable_reg_ok vlt _ Hi Hp).
+Qed.
+Print Assumptions C13_reachable.
+
 (* the validators are the ones of the generated NodeSchema descriptor *)
 Theorem C13_tables :
   field_validators node_schema "node_id" = [VRange (Some 0) (Some 255) true true]
